@@ -13,6 +13,7 @@ pub mod c10;
 pub mod c11;
 pub mod c12;
 pub mod c13;
+pub mod c14;
 pub mod c15;
 pub mod c16;
 pub mod c17;
@@ -33,6 +34,7 @@ pub fn run<C: Suite>(ctx: &mut Ctx) {
         "C11" => c11::run::<C>(ctx),
         "C12" => c12::run::<C>(ctx),
         "C13" => c13::run::<C>(ctx),
+        "C14" => c14::run::<C>(ctx),
         "C15" => c15::run::<C>(ctx),
         "C16" => c16::run::<C>(ctx),
         "C17" => c17::run::<C>(ctx),
